@@ -42,7 +42,7 @@ func VerifC17Journal() {
 		segs = 2
 	}
 	nrecMode := rt.Choose("nrec.mode", 3) // exact / 0 (not yet synced) / -1 (no-sync mode)
-	cut := rt.Choose("cut", 5)             // none / torn final record / header zeroed / empty file / cut inside the header
+	cut := rt.Choose("cut", 5)            // none / torn final record / header zeroed / empty file / cut inside the header
 
 	// build the journal
 	var j []byte
